@@ -53,7 +53,8 @@ var amountsPool = []*big.Int{big.NewInt(1), big.NewInt(2), big.NewInt(7), big.Ne
 
 func NewWalk(r *harness.Rand, rep *harness.Reporter, o WalkOpts, enabled ...string) *Walk {
 	if o.Shards == 0 {
-		o.Shards = 1 + uint32(r.Intn(3))
+		// mostly 1-3 shards; one walk in six runs on a network of 4, 5 or 8
+		o.Shards = []uint32{1, 2, 3, 1, 2, 3, 1, 2, 3, 1, 2, 3, 1, 2, 3, 4, 5, 8}[r.Intn(18)]
 	}
 	u, err := gen.NewUniverse(r, gen.UniOpts{Shards: o.Shards, Users: 4 + r.Intn(2), Contracts: 2 + r.Intn(2), GasMap: o.GasMap, NameChange: r.Bool()})
 	if err != nil {
